@@ -80,6 +80,8 @@ def _parse(out_json, stdout, names):
             user_assertions=len(user_asserts),
             user_assertions_unreachable=[c.get("description") for c in user_asserts if c.get("status") == "Unreachable"],
             undetermined=len(undet),
+            undetermined_user=[c.get("description") for c in undet if c in user_asserts],
+            undetermined_side=sorted(set((c.get("description") or "")[:90] for c in undet if c not in user_asserts))[:6],
             props=pd.get(full, {}),
             error=ed.get(full, {}),
             solver_s=cb.get(full, {}).get("cbmc_stats", {}).get("runtime_solver_s"),
